@@ -11,7 +11,7 @@ known = {k["key"] for k in load_known() if k.get("status") == "open"}
 pats = sys.argv[1:]
 specs = [s for s in st.load_corpus() if any(p == s["kind"] or p in s["name"] for p in pats)]
 def one(s):
-    return s, st.run_one(s, "/repo", lambda repo, p=s["property"]: chk.merged_findings(chk.analyse(p, repo, "quick", ["dev"])[0]), known)
+    return s, st.run_one(s, "/repo", None, known)
 with concurrent.futures.ThreadPoolExecutor(max_workers=10) as ex:
     for s, r in ex.map(one, specs):
         if r["status"] not in ("silent", "fired"):
